@@ -296,3 +296,32 @@ pub fn build_size_map(s: &SizeInfo) -> SizeMap {
         width,
     }
 }
+
+/// The fixed-pattern tracks of a symbol: for every region its top row (clock), bottom row (solid),
+/// left column (solid) and right column (clock), as lists of pixel indices in drawing order.
+pub fn fixed_tracks(s: &SizeInfo) -> Vec<Vec<u32>> {
+    let (h, w) = (s.rows, s.cols);
+    let rh = h / s.reg_rows;
+    let rw = w / s.reg_cols;
+    let mut out = Vec::new();
+    for rr in 0..s.reg_rows {
+        for rc in 0..s.reg_cols {
+            let r0 = rr * rh;
+            let c0 = rc * rw;
+            out.push((0..rw).map(|c| (r0 * w + c0 + c) as u32).collect());
+            out.push((0..rw).map(|c| ((r0 + rh - 1) * w + c0 + c) as u32).collect());
+            out.push((0..rh).map(|r| ((r0 + r) * w + c0) as u32).collect());
+            out.push((0..rh).map(|r| ((r0 + r) * w + c0 + rw - 1) as u32).collect());
+        }
+    }
+    // whole-symbol tracks (a clock row / solid bar across all regions)
+    for rr in 0..s.reg_rows {
+        out.push((0..w).map(|c| (rr * rh * w + c) as u32).collect());
+        out.push((0..w).map(|c| (((rr + 1) * rh - 1) * w + c) as u32).collect());
+    }
+    for rc in 0..s.reg_cols {
+        out.push((0..h).map(|r| (r * w + rc * rw) as u32).collect());
+        out.push((0..h).map(|r| (r * w + (rc + 1) * rw - 1) as u32).collect());
+    }
+    out
+}
